@@ -548,6 +548,8 @@ def summarise(res: List[dict]) -> dict:
     lines.append(f"  sensitivity: {len(flagged)}/{len([r for r in mut if r.get('applies')])} variants that break the property are flagged; "
                  f"benign variants silent: {len(silent)}/{len([r for r in ben if r.get('applies')])}"
                  + (f"; {len(na)} operator(s) no longer apply" if na else ""))
+    for k_, i_ in sorted({(r["kind"], r["id"]) for r in na}):
+        lines.append(f"  (no longer applies to this tree: {k_} '{i_}')")
     for r in gaps:
         lines.append(f"  SENSITIVITY-GAP: {r['kind']} '{r['id']}' is not flagged by {r['property']} (exit {r['exit']}"
                      + (f", undecided: {r['undecided']}" if r.get("undecided") else "") + ")")
